@@ -471,11 +471,13 @@ class MultiIndex:
 
 
 class WriterThread(threading.Thread):
-    def __init__(self, env, stat_collector):
+    def __init__(self, env, stat_collector, on_written=None):
         super().__init__()
         self.running = True
         self.env = env
         self.stat_collector = stat_collector
+        # called with each added event once its write transaction has committed
+        self.on_written = on_written
         self.queue = queue.SimpleQueue()
         self.write_indexes = [i for i in INDEXES.values() if i.enabled]
         self.processing = False
@@ -495,6 +497,7 @@ class WriterThread(threading.Thread):
             if task is None:
                 break
             operation, args = task
+            written = None
             try:
                 with stat_collector.timeit("write") as counter:
                     with env.begin(write=True, buffers=True) as txn:
@@ -506,6 +509,7 @@ class WriterThread(threading.Thread):
                                 index.write(event, txn)
                                 # log.debug("index %s event %s", index, event)
                             self._post_save(txn, event, counter, log)
+                            written = event
                         elif operation == "del":
                             event = decode_event(
                                 get_event_data(txn, bytes.fromhex(args[0]))
@@ -519,6 +523,8 @@ class WriterThread(threading.Thread):
                             index_name, events = args
                             INDEXES[index_name].bulk_update(events, txn)
                         counter["count"] += 1
+                if written is not None and self.on_written is not None:
+                    self.on_written(written)
                 qs = qsize()
                 if qs >= 1000 and qs % 1000 == 0:
                     # since we can do about 1,000 writes per second (end-to-end),
@@ -637,7 +643,9 @@ class LMDBStorage(BaseStorage):
         await super().setup()
         self.db = lmdb.open(**self.options)
         self.write_tombstone()
-        self.writer_thread = WriterThread(self.db, self.stat_collector)
+        self.writer_thread = WriterThread(
+            self.db, self.stat_collector, on_written=self._announce_written
+        )
         self.writer_queue = self.writer_thread.queue
         self.writer_thread.start()
 
@@ -694,10 +702,19 @@ class LMDBStorage(BaseStorage):
         await self.post_save(event)
         return event, True
 
+    def _announce_written(self, event: Event):
+        # runs in the writer thread, after the commit: only now can the other
+        # processes load the event that is announced to them
+        if self.notifier:
+            self.loop.call_soon_threadsafe(
+                asyncio.ensure_future, self.notify_other_processes(event)
+            )
+
     async def post_save(self, event: Event, **kwargs):
         await self.notify_all_connected(event)
-        # notify other processes
-        await self.notify_other_processes(event)
+        if event.is_ephemeral:
+            # never written: there is no commit to wait for
+            await self.notify_other_processes(event)
 
     async def reindex(
         self, index_name: str, batch_size=500, kinds=(1, 0), since=1, until=0
